@@ -11,6 +11,9 @@ def check(ctx):
     thorough = ctx.tier == "thorough"
     ctx.build()
     cfgs = [dict(NA=3, NB=0, MaxSteps=6, MaxDup=1, MaxBad=0, Ticks=TICKS, Ver=0),
+            # pacing: after a re-request, further reads that bring no packet of the transfer (plain messages, impossible numbers)
+            # do not trigger another one before the idle time has passed again
+            dict(NA=3, NB=0, MaxSteps=6, MaxDup=0, MaxBad=1, MaxPlain=2, MaxRestart=0, Ticks="{5200}", Ver=0),
             # several re-request rounds with partial resupply in between (totals of 5)
             dict(NA=5, NB=0, MaxSteps=7, MaxDup=0, MaxBad=0, Ticks="{5200}", Ver=1)]
     if thorough:
